@@ -817,6 +817,10 @@ impl RefTable {
                     _ => unreachable!(),
                 }
             }
+            Op::FacsSet { idx, v } => {
+                let (off, w, _) = FACS_FIELDS[*idx as usize];
+                put(&mut self.img, off, w, *v);
+            }
             Op::Sdt(s) => self.apply_sdt(s),
         }
     }
